@@ -170,6 +170,8 @@ def run(tier):
         # reinterpret with trailing dimension: complex<double> -> double[2]
         for cexpr, nm in (("v.reinterpret_array_cast<double>(2)", "reinterpret_array_cast<double>(2)"),
                           ("std::as_const(v).reinterpret_array_cast<double>(2)", "const reinterpret_array_cast<double>(2)"),
+                          ("std::move(v).reinterpret_array_cast<double>(2)", "rvalue reinterpret_array_cast<double>(2)"),
+                          ("v().reinterpret_array_cast<double>(2)", "temporary view .reinterpret_array_cast<double>(2)"),
                           ("multi::blas::real_doubled(v)", "blas::real_doubled")):
             v = vs.root(D, True)
             if "real_doubled" in nm:
